@@ -129,7 +129,15 @@ def cacheable_spec(rng):
         spec = gen.gen_gated(rng, deterministic=True, n_blocks=(1, 3))
         inputs_pool = [gen.gated_inputs(rng, spec) for _ in range(rng.randint(2, 3))]
     else:
-        spec = gen.gen_dag(rng, n_nodes=(2, 6), p_default_edge=0.0, p_gen=0.05)
+        spec = gen.gen_dag(rng, n_nodes=(2, 6), p_default_edge=0.0, p_gen=0.05, p_emit=0.35)
+        em = [(ns, e) for ns in spec["nodes"] for e in ns.get("emit", []) if not ns.get("gen")]
+        if em:
+            # the ordering signal of a (forced) cacheable node is consumed as plain data and waited for:
+            # a stored result must give back the very sentinel, not a copy of it
+            ns0, e0 = rng.choice(em)
+            ns0["force_cache"] = True
+            spec["nodes"].append({"k": "fn", "name": "sig_data", "params": [{"n": e0}], "outs": ["sig_seen"]})
+            spec["nodes"].append({"k": "fn", "name": "sig_wait", "params": [{"n": "sig_aux"}], "outs": ["sig_after"], "wait": [e0]})
         base = {k: f"run:{k}" for k in gen.consumed_inputs(spec)}
         inputs_pool = [dict(base)]
         for j in range(rng.randint(1, 2)):
@@ -142,7 +150,7 @@ def cacheable_spec(rng):
             k = rng.choice(sorted(base))
             inputs_pool = [dict(base, **{k: x}) for x in (1, 1.0, True)]
     for ns in spec["nodes"]:
-        if ns["k"] in ("fn", "ifelse", "route") and rng.random() < 0.65:
+        if ns["k"] in ("fn", "ifelse", "route") and (rng.random() < 0.65 or ns.pop("force_cache", False)):
             ns["cache"] = True
     # one function object shared by two nodes wired differently
     if rng.random() < 0.6:
